@@ -201,6 +201,6 @@ def independent_row_indices(mat):
     ind_vecs = []
     for i in range(mat.shape[0]):
         submat = mat[ind_vecs + [i,], ]
-        if not np.isclose(np.linalg.det(submat@submat.T), 0):
+        if np.linalg.matrix_rank(submat) == submat.shape[0]:
             ind_vecs.append(i)
     return ind_vecs
